@@ -32,12 +32,44 @@ def rec_t(r):
     raise ValueError(t)
 
 
+def sess_t(x):
+    return "(Sess %s %s %s %s %s %s)" % (S.cs(x["node"]), S.cs(x["name"]), S.cb(x["del"]), S.clist([S.cs(c) for c in x["checks"]]),
+                                        S.cb(x["delay"]), S.cn(x["c"]))
+
+
+def opt(v, f):
+    return "None" if v is None else "(Some %s)" % f(v)
+
+
+def qread_t(r):
+    """one read of the restored store: (query, the implementation's answer as a qres)"""
+    q, a, i = r["q"], S.cs(r.get("arg", "")), S.cn(r.get("idx", 0))
+    if q == "kvget":
+        return "(QKVGet %s, QRkv %s %s)" % (a, i, opt(r.get("kv"), S.kvent))
+    if q == "kvlist":
+        return "(QKVListAll, QRkvs %s %s)" % (i, S.clist(["(%s, %s)" % (S.cs(e["k"]), S.kvent(e)) for e in r.get("kvs") or []]))
+    if q == "sessget":
+        return "(QSessionGet %s, QRsess %s %s)" % (a, i, opt(r.get("sess"), sess_t))
+    if q == "sesslist":
+        return "(QSessionList, QRsessions %s %s)" % (i, S.clist(["(%s, %s)" % (S.cs(e["id"]), sess_t(e)) for e in r.get("sessions") or []]))
+    if q == "node":
+        return "(QNode %s, QRnode %s)" % (a, opt(r.get("node"), S.node_t))
+    if q == "nodeservices":
+        return "(QNodeServices %s, QRservices %s)" % (a, S.clist(["(%s, %s)" % (S.cs(e["id"]), S.svc_t(e)) for e in r.get("services") or []]))
+    if q == "nodechecks":
+        return "(QNodeChecks %s, QRchecks %s)" % (a, S.clist(["(%s, %s)" % (S.cs(e["id"]), S.check_t(e)) for e in r.get("checks") or []]))
+    if q == "queryget":
+        return "(QQueryGet %s, QRquery %s %s)" % (a, i, opt(r.get("qsid"), S.cs))
+    raise ValueError(q)
+
+
 def cut_t(c, with_suffix):
     fin = "None"
     if with_suffix and c.get("final") is not None:
         fin = "(Some %s)" % S.dump(c["final"])
-    return "Cut %d%%nat %s %s %s (%s, %s, %s) %s" % (c["k"], S.cn(c["last_index"]), S.clist(["(%s)" % rec_t(r) for r in c["records"]]),
-                                                   S.dump(c["restored"]), S.cn(c["reads"][0]), S.cn(c["reads"][1]), S.cn(c["reads"][2]), fin)
+    return "Cut %d%%nat %s %s %s (%s, %s, %s) %s %s" % (c["k"], S.cn(c["last_index"]), S.clist(["(%s)" % rec_t(r) for r in c["records"]]),
+                                                      S.dump(c["restored"]), S.cn(c["reads"][0]), S.cn(c["reads"][1]), S.cn(c["reads"][2]),
+                                                      S.clist([qread_t(r) for r in c.get("qreads") or []]), fin)
 
 
 def case_t(h):
